@@ -625,3 +625,94 @@ def rewirable(desc: dict) -> list[tuple[str, int, list[int]]]:
     out += [("iapar", n, list(v[2])) for n, v in desc["par"] if v[0] == "ia" and v[2]]
     out += [("iavar", n, list(v[2])) for n, v in desc["var"] if v[0] == "ia" and v[2]]
     return out
+
+
+# =======================================================================================
+# APPENDED (closing round, seeded C01-9): quantities computed from data sets only.  New functions only.
+# =======================================================================================
+
+
+def plant_data_readers(rng, desc: dict) -> dict:
+    """A copy of `desc` that holds at least one data set and, downstream of it,
+
+    * a derived quantity whose arguments are ONLY data sets and plain parameters (never the state, never time),
+    * with probability 1/2 a second derived quantity chained to the first (first + a parameter, still state-free),
+    * with probability 1/2 a derived quantity reading the data set AND a variable or time,
+    * with probability 1/3 a parameter defined by an initial assignment that reads the data set,
+    * one reaction per planted quantity that reads it and moves a variable with a numeric coefficient.
+
+    Everything planted names base values or earlier planted names only, so the description stays complete and acyclic."""
+    from harness import fnlib
+
+    d = copy_desc(desc)
+    fresh = _fresh_from(d)
+    plain_p = [n for n, v in d["par"] if v[0] == "plain"]
+    variables = [n for n, _ in d["var"]]
+    if not d["dat"]:
+        d["dat"].append((fresh(), rng.randint(-2, 2)))
+    if len(d["dat"]) < 2 and rng.random() < 0.4:
+        d["dat"].append((fresh(), rng.randint(-2, 2)))
+    dats = [n for n, _ in d["dat"]]
+
+    def rxn_on(x: int) -> None:
+        f = rng.choice(fnlib.BY_ARITY[1] + fnlib.BY_ARITY[2])
+        a = [x] if fnlib.ARITY[f] == 1 else rng.sample([x, rng.choice(plain_p + variables)], 2)
+        d["rxn"].append((fresh(), f, a, [(rng.choice(variables), ("stat", rng.choice([-2, -1, 1, 2, 3])))]))
+
+    # (1) data and parameters only
+    ar = rng.choice([1, 2, 2, 3])
+    a = [rng.choice(dats)] + [rng.choice(plain_p + dats) for _ in range(ar - 1)]
+    rng.shuffle(a)
+    d1 = fresh()
+    d["der"].append((d1, rng.choice(fnlib.BY_ARITY[ar]), a))
+    last = d1
+    if rng.random() < 0.5:
+        d2 = fresh()
+        a2 = [d1, rng.choice(plain_p)]
+        rng.shuffle(a2)
+        d["der"].append((d2, rng.choice(fnlib.BY_ARITY[2]), a2))
+        last = d2
+    rxn_on(last)
+    if last != d1 and rng.random() < 0.5:
+        rxn_on(d1)
+    # (2) data and state / time
+    if rng.random() < 0.5:
+        d3 = fresh()
+        a3 = [rng.choice(dats), rng.choice(variables + [0])]
+        rng.shuffle(a3)
+        d["der"].append((d3, rng.choice(fnlib.BY_ARITY[2]), a3))
+        rxn_on(d3)
+    # (3) a parameter assigned from the data set (resolved once, at time zero, from the data the model holds then)
+    if rng.random() < 1 / 3:
+        p = fresh()
+        a4 = [rng.choice(dats), rng.choice(plain_p)]
+        d["par"].append((p, ("ia", rng.choice(fnlib.BY_ARITY[2]), a4)))
+        rxn_on(p)
+    for k in ("par", "der", "rxn"):
+        rng.shuffle(d[k])
+    return d
+
+
+def data_only_names(desc: dict) -> list[int]:
+    """derived quantities that depend, through any chain, only on data sets and parameters and on at least one data set"""
+    par = {n for n, _ in desc["par"]}
+    dat = {n for n, _ in desc["dat"]}
+    der = {n: a for n, _, a in desc["der"]}
+    memo: dict[int, tuple[bool, bool]] = {}
+
+    def go(n: int) -> tuple[bool, bool]:  # (state free, reads data)
+        if n in memo:
+            return memo[n]
+        if n in dat:
+            r = (True, True)
+        elif n in par:
+            r = (True, False)
+        elif n in der:
+            rs = [go(a) for a in der[n]]
+            r = (all(x for x, _ in rs), any(y for _, y in rs))
+        else:
+            r = (False, False)
+        memo[n] = r
+        return r
+
+    return [n for n in der if go(n) == (True, True)]
